@@ -106,6 +106,7 @@ type config struct {
 	ver    int // 1, 2
 	unsafe bool
 	eager  bool
+	rr     bool // run under the round-robin ("lockstep") default scheduler instead of the client-first one
 }
 
 const nConfigs = 24
@@ -134,6 +135,9 @@ func (c config) String() string {
 		s += "/eager-merge"
 	} else {
 		s += "/no-merge"
+	}
+	if c.rr {
+		s += "/lockstep"
 	}
 	return s
 }
@@ -252,7 +256,7 @@ func runHistory(cfg config, specs []harness.BatchSpec, api apiMode, expect expec
 	model := harness.NewModel()
 	prefixes := []string{model.Content()} // content after each prefix of the history
 	var fail string
-	s := verifmc.Run(verifmc.Options{}, func() {
+	s := verifmc.Run(verifmc.Options{RoundRobin: cfg.rr}, func() {
 		bcfg := harness.Config(nil, cfg.opts())
 		ic := bcfg.VerifIndexConfig()
 		ic.DirectoryFunc = newDir
@@ -471,6 +475,21 @@ func gridEval(idx int64, param string) *explore.Result {
 	return resultOf(cfg, specs, apiReusedBatch, runHistory(cfg, specs, apiReusedBatch, abstractApply), idx)
 }
 
+// enumeration 2b: the eager-merge configurations on the crashfs device once more
+// under the round-robin default scheduler: client, introducer, persister and
+// merger advance in lockstep, so that batches land inside merge and persist windows
+var lockstepConfigs = []int{12, 15, 18, 21} // crashfs x {v1,v2} x {safe,unsafe} x eager merge
+
+func lockTotal(param string) int64 {
+	return int64(len(lockstepConfigs)) * nHist(depth(param, false))
+}
+func lockEval(idx int64, param string) *explore.Result {
+	cfg := configOf(lockstepConfigs[idx%int64(len(lockstepConfigs))])
+	cfg.rr = true
+	specs := histSpecs(histOf(idx / int64(len(lockstepConfigs))))
+	return resultOf(cfg, specs, apiReusedBatch, runHistory(cfg, specs, apiReusedBatch, abstractApply), idx)
+}
+
 // enumeration 3: Writer.Insert / Update / Delete and fresh batches: histories
 // over the 6 single-operation shapes, both ways of submitting them
 var singleShapes = []int{1, 2, 3, 4, 8, 12}
@@ -594,6 +613,7 @@ func main() {
 	log.SetOutput(io.Discard)
 	explore.RegisterEnum("c01-default", defTotal, defEval)
 	explore.RegisterEnum("c01-grid", gridTotal, gridEval)
+	explore.RegisterEnum("c01-lockstep", lockTotal, lockEval)
 	explore.RegisterEnum("c01-single-ops", singleTotal, singleEval)
 	explore.RegisterEnum("c01-dup-id-probe", dupTotal, dupEval)
 	explore.WorkerMain()
@@ -605,7 +625,7 @@ func main() {
 	c.Rule = fmt.Sprintf("every history of 0..%d batches (default configuration crashfs/v1/safe/no-merge) and 0..%d batches (each of the 23 other configurations of {crashfs device, real FileSystemDirectory on /dev/shm, the directory of bluge.InMemoryOnlyConfig} x {ice v1, v2} x {safe, unsafe} x {merging off = no in-memory merge and a merge plan whose budget is never exceeded, eager merge options}) over the 16 batch shapes on ids {a,b} (per id: untouched/insert/update/delete; fresh version per written document); plus every history of 0..%d single-operation calls through Writer.Insert/Update/Delete and through a fresh batch per call; plus the 9 ordered pairs of operations on one id inside one batch (known-finding probe). A history is non-trivial when some batch updates or deletes an id that is live at that moment; distinct outcomes = distinct (configuration, sequence of observed contents, reopened content)", dd, dg, dd)
 	c.Explanation = "bounded-exhaustive enumeration on the real writer under the controlled scheduler's default schedule; one index.Batch object is reused with Reset() across a history; oracle = reference multiset index (harness.Model: remove every live document whose id the batch updates/deletes, then add) compared after EVERY batch through a fresh Reader (Count, match-all enumeration, stored fields of every hit, term lookup on _id per id) and after Close + bluge.OpenReader (safe: final content; unsafe: content after some prefix). In the unsafe configurations the client yields once, in the eager-merge configurations twice, to the writer's background threads after each batch (otherwise the default schedule, which prefers the client thread, never lets the persister/merger work and no merged or lazily persisted segment would ever be observed); counts histories_with_merge_introduction / histories_with_in_memory_merge / unsafe_reopen_* / observations_with_N_segments show the layouts reached"
 	c.Assumptions = []string{
-		"schedules other than the default one are C05/C06's subject",
+		"schedules other than the default one (and, for the eager-merge configurations on the crashfs device, the round-robin lockstep schedule of c01-lockstep) are C05/C06's subject",
 		"the alphabet has two ids; a third id would only add batches that are independent of the first two",
 		"the in-memory directory keeps no snapshot, so Close + reopen is judged for the two persistent directory kinds only",
 		"a batch naming one id twice is excluded from the main enumerations and probed separately (designated known finding)",
@@ -618,7 +638,7 @@ func main() {
 		probe.Exhaustive = true // every case was evaluated; the violations are the per-shape known finding
 	}
 	// one wall-clock allowance for the rest, shared out over the enumerations
-	deadline := time.Now().Add(c.PickD(50*time.Second, 9*time.Minute))
+	deadline := time.Now().Add(c.PickD(60*time.Second, 9*time.Minute))
 	share := func(f float64) time.Duration {
 		d := time.Duration(float64(time.Until(deadline)) * f)
 		if d < 2*time.Second {
@@ -629,6 +649,8 @@ func main() {
 	st := explore.Enumerate(explore.EnumConfig{Name: "c01-single-ops", Param: c.Tier, Budget: share(0.2), CrashIsViolation: true})
 	c.AddEnum(st)
 	st = explore.Enumerate(explore.EnumConfig{Name: "c01-default", Param: c.Tier, Budget: share(0.45), CrashIsViolation: true})
+	c.AddEnum(st)
+	st = explore.Enumerate(explore.EnumConfig{Name: "c01-lockstep", Param: c.Tier, Budget: share(0.35), CrashIsViolation: true})
 	c.AddEnum(st)
 	st = explore.Enumerate(explore.EnumConfig{Name: "c01-grid", Param: c.Tier, Budget: share(1), CrashIsViolation: true})
 	c.AddEnum(st)
